@@ -1,1 +1,195 @@
-(* placeholder: to be written *)
+(** C15 — Dual-yield (metastaking) tokens are fully backed and unwind to their parts.
+
+    ASSUME / GUARANTEE.  The model (Model/MetaStaking.v) is the proxy's own code and ledger; the LP
+    farm, the staking farm and the pair are an environment whose answers are arguments of the
+    operations ([env_stake], [env_claim], [env_unstake]).  All theorems below are FULL theorems
+    relative to that interface: they quantify over every state / history and over EVERY answer of the
+    environment; where a clause needs an interface law (L1-L7, Model/MetaStaking.v) the law is an
+    explicit hypothesis of the clause.  The one thing built into the model is L0: a payment a callee
+    reports as returned was really transferred to the proxy.  L0-L6 are evaluated on every real answer
+    of the real farms / pair by the correspondence run (Run/MetaStakingRun.v) and by the monitors
+    (tools/props/c15.py); L1-L3, L6, L7 are in addition lemmas of the callee MODELS (below); L4, L5
+    (farm-staking specific) have no model here.  What is NOT proved: the composition "real farm |= law"
+    as one closed system — it is proved on the farm / pair / safe-price models only.
+
+    Vocabulary:
+      [sup s n]        outstanding supply of dual-yield nonce n;  [d_sfa a] its total supply T
+      [rel s n]        ghost: LP-farm amount released for nonce n so far;  [d_lpa a] the whole L
+      [lpf_bal s k], [sf_bal s k], [fbal s t]   the proxy account's balances
+      [lp_claim s k] = sum over nonces recording LP-farm nonce k of (L - rel)
+      [sf_claim s k] = sum over nonces recording staking-farm nonce k of the outstanding supply
+      [claimable a x]  LP-farm part of a redemption of x units (L when x = T, else floor (L*x/T))
+      [registered cs]  net staking value the calls [cs] of one transaction register in the staking farm
+    Search focus (framework.py, broken-proof search): partial redemptions whose floor is 0 or inexact,
+    several dual-yield nonces sharing one LP-farm nonce, merges of partial tokens, value changes
+    between stake and claim. *)
+From MX Require Import Base.Prelude Gen.Params Model.SafePrice Proofs.SafePriceProofs Model.MetaStaking Proofs.MetaStakingProofs.
+
+(** ------------------------------------------------------------------ backed *)
+(** Over every history and every environment: the proxy's balance of each farm-token nonce is EXACTLY
+    what the dual-yield nonces recording it still claim; so for each nonce the proxy holds the
+    staking-farm tokens of its outstanding supply and LP-farm tokens covering any redemption its
+    holders can still make; and it holds nothing else. *)
+Theorem C15_backed : forall ops, wf_ops ops ->
+  let s := run init_st ops in
+  (forall k, lpf_bal s k = lp_claim s k) /\
+  (forall k, sf_bal s k = sf_claim s k) /\
+  (forall n a, In (n, a) (s_attrs s) ->
+     nonce_ok s n a /\
+     sup s n <= sf_bal s (d_sfn a) /\
+     d_lpa a - rel s n <= lpf_bal s (d_lpn a) /\
+     (forall x, 0 <= x <= sup s n -> claimable a x <= lpf_bal s (d_lpn a))) /\
+  (forall t, fbal s t = 0).
+Proof. exact backed_run. Qed.
+Print Assumptions C15_backed.
+
+(** ------------------------------------------------------------------ parts *)
+(** into_part: staking part = the payment; LP-farm part = floor of the proportional share (the whole
+    for the whole supply); the transaction fails exactly when that floor is 0 *)
+Theorem C15_parts_rule : forall a p, 0 < d_sfa a -> 0 <= d_lpa a -> 0 < p ->
+  match dy_part a p with
+  | Ok part => d_lpn part = d_lpn a /\ d_sfn part = d_sfn a /\ d_sfa part = p /\
+               (p = d_sfa a -> d_lpa part = d_lpa a) /\
+               (p <> d_sfa a -> 0 < d_lpa part /\
+                                d_lpa part * d_sfa a <= d_lpa a * p < d_lpa part * d_sfa a + d_sfa a)
+  | Err _ => p <> d_sfa a /\ d_lpa a * p < d_sfa a
+  end.
+Proof. exact dy_part_char. Qed.
+Print Assumptions C15_parts_rule.
+
+(** any sequence of partial exits of at most the whole supply releases at most the whole *)
+Theorem C15_parts_sum : forall L T ps, 0 <= L -> 0 < T -> Forall (fun p => 0 <= p) ps -> zsum ps <= T ->
+  0 <= floor_parts L T ps <= L.
+Proof. exact floor_parts_le. Qed.
+Print Assumptions C15_parts_sum.
+
+(** along every history the parts actually released for a nonce never exceed the whole, and the
+    LP-farm part released is at most the proportional share of the staking part redeemed *)
+Theorem C15_parts : forall ops, wf_ops ops ->
+  let s := run init_st ops in
+  forall n a, In (n, a) (s_attrs s) ->
+    0 <= rel s n <= d_lpa a /\ 0 <= d_sfa a - sup s n <= d_sfa a /\
+    rel s n * d_sfa a <= d_lpa a * (d_sfa a - sup s n).
+Proof. exact parts_run. Qed.
+Print Assumptions C15_parts.
+
+(** ------------------------------------------------------------------ unstake *)
+Theorem C15_unstake : forall s c oc n p m1 m2 e s' o cs,
+  step s (Unstake c oc [(TK_DY, n, p)] m1 m2 e) = Ok (s', o, cs) ->
+  exists a part stk ot oa,
+    find_attr (s_attrs s) n = Some a /\ dy_part a p = Ok part /\
+    pick_staking (eu_rm e) = Ok (stk, ot, oa) /\
+    o = [oa; eu_rl e; eu_rs e; eu_ubn e; eu_uba e] /\
+    cs = [CLpExit (d_lpn a) (d_lpa part); CPairRemove (eu_lp e) m1 m2; CStkUnstake stk (d_sfn a) p] /\
+    (law_L5 stk e = true -> eu_uba e = stk) /\
+    (law_L6 (eu_rm e) = true -> ot = TK_OTH) /\
+    (forall t, fbal s' t = fbal s t) /\
+    (forall k, lpf_bal s' k = lpf_bal s k - (if d_lpn a =? k then d_lpa part else 0)) /\
+    (forall k, sf_bal s' k = sf_bal s k - (if d_sfn a =? k then p else 0)) /\
+    s_attrs s' = s_attrs s /\ sup s' n = sup s n - p /\ hold s' n c = hold s n c - p.
+Proof. exact unstake_char. Qed.
+Print Assumptions C15_unstake.
+
+(** the proxy keeps no user funds: no successful operation changes any of its fungible balances *)
+Theorem C15_no_user_funds : forall s op s' o cs, step s op = Ok (s', o, cs) -> forall t, fbal s' t = fbal s t.
+Proof. exact no_user_funds_step. Qed.
+Print Assumptions C15_no_user_funds.
+
+(** ------------------------------------------------------------------ safe price *)
+Theorem C15_safe : forall s c oc pays e s' o cs,
+  step s (Stake c oc pays e) = Ok (s', o, cs) ->
+  exists k a adds parts v ot oa n new rest,
+    pays = (TK_LPF, k, a) :: adds /\ Forall2 (part_of_pay s) adds parts /\
+    pick_staking (es_sp e) = Ok (v, ot, oa) /\
+    cs = CSafePrice a :: CStkEnter v (sf_toks parts) :: rest /\
+    (rest = [] \/ exists toks, rest = [CLpMerge toks]) /\
+    registered cs = v /\
+    In (n, new) (s_attrs s') /\ o = [n; d_sfa new; es_bs e; merged_bl adds e] /\
+    (law_L3 v parts e = true -> d_sfa new = v + sum_sfa parts) /\
+    (adds = [] -> d_lpn new = k /\ d_lpa new = a) /\
+    (adds <> [] -> law_L2 a parts e = true -> d_lpa new = a + sum_lpa parts).
+Proof. exact stake_safe. Qed.
+Print Assumptions C15_safe.
+
+Theorem C15_safe_claim : forall s c oc pays e s' o cs,
+  step s (Claim c oc pays e) = Ok (s', o, cs) ->
+  exists n p a part v ot oa n' new,
+    pays = [(TK_DY, n, p)] /\ find_attr (s_attrs s) n = Some a /\ dy_part a p = Ok part /\
+    pick_staking (ec_sp e) = Ok (v, ot, oa) /\
+    cs = [CSafePrice (d_lpa part); CLpClaim (d_lpn a) (d_lpa part); CStkClaim (d_sfn a) p v] /\
+    registered cs = v - p /\
+    In (n', new) (s_attrs s') /\ o = [ec_rl e; ec_rs e; n'; d_sfa new] /\
+    (law_L4 v e = true -> d_sfa new = v) /\
+    (law_L1 part e = true -> d_lpa new = d_lpa part).
+Proof. exact claim_safe. Qed.
+Print Assumptions C15_safe_claim.
+
+(** with L7 (the pair answers as Model/SafePrice.v's [QLpDef], characterised by C13): the value a stake
+    registers is the time-weighted-average valuation of the LP amount over the safe-price window *)
+Theorem C15_safe_twap : forall N us ev o stk_first s c oc pays e s' out cs, 2 <= N ->
+  wf_calls us -> (forall u, In u us -> u_round u <= e_now ev) -> pos_upd (cur_upd ev) ->
+  get_oldest N (ring_of N us) = Ok o -> ob_round o < e_now ev ->
+  step s (Stake c oc pays e) = Ok (s', out, cs) ->
+  forall k a adds, pays = (TK_LPF, k, a) :: adds ->
+  Ok (es_sp e) = Laws.pair_safe_answer N us ev stk_first a ->
+  let s0 := e_now ev - Z.min DEFAULT_SAFE_PRICE_ROUNDS_OFFSET (e_now ev - ob_round o) in
+  registered cs =
+    a * avg (if stk_first then u_r1 else u_r2) us (cur_upd ev) s0 (e_now ev) / avg u_S us (cur_upd ev) s0 (e_now ev).
+Proof. exact Laws.stake_safe_twap. Qed.
+Print Assumptions C15_safe_twap.
+
+(** ------------------------------------------------------------------ the laws on the callee models *)
+Theorem C15_law_L1_farm_model : forall f blk ep c n x b f' n' amt r,
+  Farm.ep_claim f blk ep c (n, x) [] b = Ok (f', [n'; amt; r]) -> amt = x.
+Proof. exact Laws.L1_farm_claim. Qed.
+Print Assumptions C15_law_L1_farm_model.
+
+Theorem C15_law_L2_farm_model : forall f blk ep c ps b f' n amt b',
+  Farm.ep_merge f blk ep c ps b = Ok (f', [n; amt; b']) -> amt = Laws.pay_sum ps.
+Proof. exact Laws.L2_farm_merge. Qed.
+Print Assumptions C15_law_L2_farm_model.
+
+Theorem C15_law_L3_farm_model : forall f blk ep c amt adds b f' n out b',
+  Farm.ep_enter f blk ep c amt adds b = Ok (f', [n; out; b']) -> out = amt + Laws.pay_sum adds.
+Proof. exact Laws.L3_farm_enter. Qed.
+Print Assumptions C15_law_L3_farm_model.
+
+Theorem C15_law_L6_pair_model : forall p c lp m1 m2 p' o e,
+  Pair.ep_remove p c lp m1 m2 = Ok (p', o, e) -> exists x1 x2, o = [x1; x2] /\ 0 < x1 /\ 0 < x2.
+Proof. exact Laws.L6_pair_remove. Qed.
+Print Assumptions C15_law_L6_pair_model.
+
+Theorem C15_law_L7_safe_price_model : forall N us ev o stk_first liq, 2 <= N ->
+  wf_calls us -> (forall u, In u us -> u_round u <= e_now ev) -> pos_upd (cur_upd ev) ->
+  get_oldest N (ring_of N us) = Ok o -> ob_round o < e_now ev ->
+  let s0 := e_now ev - Z.min DEFAULT_SAFE_PRICE_ROUNDS_OFFSET (e_now ev - ob_round o) in
+  let c := cur_upd ev in
+  exists r ot oa,
+    Laws.pair_safe_answer N us ev stk_first liq = Ok r /\ law_L6 r = true /\
+    pick_staking r =
+      Ok (liq * avg (if stk_first then u_r1 else u_r2) us c s0 (e_now ev) / avg u_S us c s0 (e_now ev), ot, oa).
+Proof. exact Laws.safe_answer_twap. Qed.
+Print Assumptions C15_law_L7_safe_price_model.
+
+(** ------------------------------------------------------------------ non-vacuity
+    A history executed on the real composed system (tools/sys_metastaking.py: stake, stake with a
+    merged partial dual-yield token, stake by a second user, partial claim, transfer to a third user,
+    two partial unstakes; the [env] records are the answers the real farms / pair gave).  Every
+    operation succeeds in the model, nonce 1 is partially released (rel > 0, 0 < sup < T), and the
+    hypotheses of the theorems above hold of it. *)
+Definition nv_ops : list mop := [
+  Stake 1 false [(10, 1, 25000000)] (mkES false (2, 25325127, 1, 49363485) 1 49363485 0 0 0 0);
+  Stake 1 false [(10, 1, 12500000); (12, 1, 16454495)] (mkES false (2, 13594403, 1, 23247278) 2 39701773 0 4 20833333 1076);
+  Stake 2 false [(10, 2, 25000000)] (mkES false (2, 27188806, 1, 46494557) 3 46494557 0 0 0 0);
+  Claim 1 false [(12, 1, 16454495)] (mkEC false (2, 10810496, 1, 12856583) 5 8333333 48202 4 12856583 140);
+  Xfer 1 3 1 1000;
+  Unstake 2 false [(12, 3, 15498185)] 1 1 (mkEU false 8333332 48202 (2, 10810495, 1, 12856581) 5 12856581 107);
+  Unstake 3 false [(12, 1, 1000)] 1 1 (mkEU false 506 2 (2, 656, 1, 780) 6 780 0)].
+
+Example C15_nonvacuous :
+  wf_ops nv_ops /\
+  let s := run init_st nv_ops in
+  s_next s = 4 /\ sup s 1 = 16453495 /\ rel s 1 = 16667172 /\ lpf_bal s 1 = 8332828 /\
+  sf_bal s 1 = 16453495 /\ sup s 3 = 30996372 /\ hold s 1 3 = 0 /\ fbal s 1 = 0 /\
+  is_ok (step (run init_st (firstn 5 nv_ops)) (nth 5 nv_ops (Xfer 0 0 0 0))) = true.
+Proof. split; [repeat constructor | vm_compute; repeat split; reflexivity]. Qed.
